@@ -66,7 +66,10 @@ def body(run: Run, replay):
             return [M, B, K, Tg], Tg
         # Craig-Bampton form: constraint modes + an arbitrary invertible interior basis, then a random DOF order
         ni = n - nb
-        Q = rng.standard_normal((ni, ni)) + 2.5 * np.eye(ni)
+        for _ in range(50):               # an interior basis of moderate condition number (a nearly singular draw measures conditioning)
+            Q = rng.standard_normal((ni, ni)) + 2.5 * np.eye(ni)
+            if np.linalg.cond(Q) <= 30:
+                break
         env = {"Kii": K[nb:, nb:], "Kib": K[nb:, :nb], "Ibb": np.eye(nb), "Obi": np.zeros((nb, ni)), "Q": Q}
         mats = [np.asarray(terms.ev(T[nm], dict(env, M=M, B=B, K=K)), float) for nm in ("mcb", "bcb", "kcb")]
         perm = rng.permutation(n)
@@ -76,7 +79,7 @@ def body(run: Run, replay):
 
     for cfg, sroute, lroute, rigid_law in res.tagged("CFG"):
         nb = cfg["nb"]
-        for rep in range(6 if quick else 40):
+        for rep in range(6 if quick else 150):
             ns, nl = nb + int(rng.integers(2, 5)), nb + int(rng.integers(1, 4))
             Ms, Bs, Ks = network(np, rng, ns, {"prop": "prop", "full": "full", "noload": "full", "gyro": "full"}[cfg["damp"]])
             if cfg["damp"] == "gyro":
@@ -89,7 +92,10 @@ def body(run: Run, replay):
                 Sl = rng.standard_normal((nl, nl))
                 Pl = np.eye(nl) - np.ones((nl, nl)) / nl
                 Bl = Bl + 2.0 * Pl @ (Sl - Sl.T) @ Pl          # the Load's apparent mass is non-symmetric as well
-            Rgen = rng.standard_normal((nb, nb)) + 2 * np.eye(nb)
+            for _ in range(50):
+                Rgen = rng.standard_normal((nb, nb)) + 2 * np.eye(nb)
+                if np.linalg.cond(Rgen) <= 30:
+                    break
             tags = {"nb": nb, "sform": cfg["sform"], "lform": cfg["lform"], "damp": cfg["damp"], "fpos": cfg["fpos"]}
             run.case(("cfg", json.dumps(cfg, sort_keys=True), rep), part="NT coupling vs direct coupled solution")
             S_in, Ts = hand_over(cfg["sform"], Ms, Bs, Ks, nb, Rgen)
@@ -124,7 +130,19 @@ def body(run: Run, replay):
                 for nm, AMc, (M_, B_, K_, T_) in (("Source", SAM, (Ms, Bs, Ks, Ts)), ("Load", LAM, (Ml, Bl, Kl, Tl))):
                     want = terms.ev(T["am"], {"M": M_, "B": B_, "K": K_, "T": T_, "W": W})
                     sc = np.abs(want).max()
-                    if not np.abs(AMc[:, j, :] - want).max() <= 1e-7 * sc:
+                    # the apparent mass is an INVERSE: near an anti-resonance the boundary accelerance is ill conditioned and the
+                    # attainable accuracy degrades in proportion (1e-6 up to a condition number of 100; 2e-7 was met at 7e-4 Hz in 18k evaluations)
+                    if not np.abs(AMc[:, j, :] - want).max() <= 1e-6 * max(1.0, np.linalg.cond(want) / 100.0) * sc:
+                        if __import__("os").environ.get("VERIF_DEBUG"):
+                            import mpmath as _mp
+                            _mp.mp.dps = 40
+                            mm = lambda X: _mp.matrix(np.asarray(X).tolist())  # noqa
+                            Z_ = mm(K_) + _mp.mpc(0, 1) * _mp.mpf(W) * mm(B_) - _mp.mpf(W) ** 2 * mm(M_)
+                            acc_ = -_mp.mpf(W) ** 2 * (mm(T_) * _mp.inverse(Z_) * mm(T_).T)
+                            wmp = _mp.inverse(acc_)
+                            wmp = np.array([[complex(wmp[i_, j_]) for j_ in range(wmp.cols)] for i_ in range(wmp.rows)])
+                            print("  [debug] C15 %s f=%.5g cond(want)=%.3g  |code-want|/sc=%.3g  |want_np-want_mp|/sc=%.3g  |code-want_mp|/sc=%.3g" % (
+                                nm, f, np.linalg.cond(want), np.abs(AMc[:, j, :] - want).max() / sc, np.abs(want - wmp).max() / sc, np.abs(AMc[:, j, :] - wmp).max() / sc))
                         bad = bad or ("calcAM (%s handed over as %s): apparent mass at %.4g Hz is not the inverse of the boundary accelerance (relative %.3g)" % (
                             nm, cfg["sform"] if nm == "Source" else cfg["lform"], f, np.abs(AMc[:, j, :] - want).max() / sc), "calcAM")
                 As[:, j] = np.ravel(terms.ev(T["freeacc"], {"Ms": Ms, "Bs": Bs, "Ks": Ks, "Ts": Ts, "Fs": Fs[:, j:j + 1], "W": W}))
@@ -186,7 +204,7 @@ def body(run: Run, replay):
             run.trace_validated()
     # a Craig-Bampton model given directly (modal q-set: identity mass, diagonal stiffness and damping) with a fixed-interface mode
     # that has almost no stiffness but real damping (a mass on a dashpot): still an ordinary elastic equation of the q-set
-    for trial in range(6 if quick else 40):
+    for trial in range(6 if quick else 150):
         nb, nq = int(rng.integers(1, 4)), int(rng.integers(2, 5))
         n = nb + nq
         a_ = rng.standard_normal((n, n))
